@@ -245,17 +245,24 @@ Section PIPELINE.
     && forallb (fun p => forallb (fun kv => negb (starts_with (lower p) (fst kv)) || mem_bytes (fst kv) signed) hm)
                (prefixes rs).
 
-  Definition get_auth_parameters (cr : canonical) (rs : reqs) : res auth_params :=
+  (* rule 5: carrier selection; rules 6a-6d / 7a-7d *)
+  Definition carrier_params (cr : canonical) : res auth_params :=
     let auth := hget src_canonical_AUTHORIZATION (cr_headers cr) in
     let alg := qget src_canonical_X_AMZ_ALGORITHM (cr_query cr) in
-    ap <- (match auth, alg with
-           | Some (a :: _), None => auth_params_from_header cr a
-           | None, Some (a :: _) => auth_params_from_query cr a
-           | Some _, Some _ => Err SignatureDoesNotMatch
-           | None, None => Err MissingAuthenticationToken
-           | _, _ => Panic 7                                      (* empty value vector: unreachable *)
-           end) ;;
-    if negb (mem_bytes host_b (ap_signed ap) || mem_bytes authority_b (ap_signed ap)) then Err SignatureDoesNotMatch
+    match auth, alg with
+    | Some (a :: _), None => auth_params_from_header cr a
+    | None, Some (a :: _) => auth_params_from_query cr a
+    | Some _, Some _ => Err SignatureDoesNotMatch
+    | None, None => Err MissingAuthenticationToken
+    | _, _ => Panic 7                                      (* empty value vector: unreachable *)
+    end.
+
+  Definition host_signed (signed : list bytes) : bool :=
+    mem_bytes host_b signed || mem_bytes authority_b signed.
+
+  Definition get_auth_parameters (cr : canonical) (rs : reqs) : res auth_params :=
+    ap <- carrier_params cr ;;
+    if negb (host_signed (ap_signed ap)) then Err SignatureDoesNotMatch                 (* rule 8 *)
     else if negb (reqs_ok rs (cr_headers cr) (ap_signed ap)) then Err SignatureDoesNotMatch
     else Ok ap.
 
